@@ -18,7 +18,7 @@ import (
 	"verif/hs"
 	"verif/vk"
 
-	_ "perkeep.org/pkg/blobserver/blobpacked"
+	pkblobpacked "perkeep.org/pkg/blobserver/blobpacked"
 	_ "perkeep.org/pkg/blobserver/cond"
 	_ "perkeep.org/pkg/blobserver/diskpacked"
 	_ "perkeep.org/pkg/blobserver/encrypt"
@@ -70,9 +70,15 @@ type Env struct {
 	// Hook, if set before leaves are created, is installed on every Mem leaf.
 	Hook  hs.Hook
 	After hs.Hook
-	dir   string
-	clos  []io.Closer
-	n     int
+	// HarnessKV makes every index/meta KV of the backends a harness KV
+	// (hs.KV, reachable through KVs, with KVHook installed) instead of
+	// perkeep's in-memory KV.
+	HarnessKV bool
+	KVHook    hs.KVHook
+	KVs       map[string]*hs.KV
+	dir       string
+	clos      []io.Closer
+	n         int
 }
 
 func NewEnv() *Env { return &Env{Ld: hs.NewLoader(), Mems: map[string]*hs.Mem{}} }
@@ -87,6 +93,24 @@ func (e *Env) Mem(prefix string) *hs.Mem {
 	e.Mems[prefix] = m
 	e.Ld.Set(prefix, m)
 	return m
+}
+
+// KVConf returns the metaIndex-style config for the KV called name in this Env.
+func (e *Env) KVConf(name string) map[string]any {
+	if !e.HarnessKV {
+		return map[string]any{"type": "memory"}
+	}
+	if e.KVs == nil {
+		e.KVs = map[string]*hs.KV{}
+	}
+	kv, ok := e.KVs[name]
+	if !ok {
+		kv = hs.NewKV(fmt.Sprintf("%p/%s", e, name))
+		kv.Hook = e.KVHook
+		e.KVs[name] = kv
+		hs.RegisterKV(kv)
+	}
+	return hs.KVConf(kv)
 }
 
 // Dir returns a fresh sub-directory of this Env's scratch directory.
@@ -134,6 +158,9 @@ func (e *Env) Close() {
 		e.clos[i].Close()
 	}
 	e.clos = nil
+	for _, kv := range e.KVs {
+		hs.UnregisterKV(kv.Name)
+	}
 	// blobserver.GetHub keeps every storage that ever received a blob alive in a
 	// process-global map; forget them so that explored instances can be collected
 	blobserver.VerifResetHubs()
@@ -179,6 +206,9 @@ type Spec struct {
 	Build func(e *Env) (blobserver.Storage, error)
 	// Prepop, if set, runs after Build and populates lower layers and the reference.
 	Prepop func(e *Env, ref *hs.RefMap, universe []hs.Blob)
+	// Recover, if set, re-creates the storage the way its own recovery procedure
+	// does (from the wrapped stores alone, index wiped) over the same Env.
+	Recover func(e *Env) (blobserver.Storage, error)
 	// Extra, if set, is an additional invariant evaluated with every battery.
 	Extra func(e *Env) *hs.Mismatch
 }
@@ -211,7 +241,7 @@ func leafDiskpacked(max int) func(e *Env, prefix string) error {
 
 func leafDiskpackedMemIndex(max int) func(e *Env, prefix string) error {
 	return func(e *Env, prefix string) error {
-		args := mk{"path": e.Dir("dp"), "metaIndex": mk{"type": "memory"}}
+		args := mk{"path": e.Dir("dp"), "metaIndex": e.KVConf("diskpacked-index" + prefix)}
 		if max > 0 {
 			args["maxFileSize"] = max
 		}
@@ -234,26 +264,33 @@ func single(name string, lf leafFn, removes, memOnly bool) Spec {
 // wrappers: each takes leaf constructors for its children.
 
 func blobpacked(name string, small, large leafFn, memOnly bool) Spec {
-	return Spec{Name: name, Removes: true, MemOnly: memOnly, Build: func(e *Env) (blobserver.Storage, error) {
+	return Spec{Name: name, Removes: true, MemOnly: memOnly, Recover: func(e *Env) (blobserver.Storage, error) {
+		pkblobpacked.SetRecovery(pkblobpacked.FullRecovery)
+		defer pkblobpacked.SetRecovery(pkblobpacked.NoRecovery)
+		return e.Create("blobpacked", mk{"smallBlobs": "/small/", "largeBlobs": "/large/", "metaIndex": e.KVConf("blobpacked-meta"), "keepGoing": true})
+	}, Build: func(e *Env) (blobserver.Storage, error) {
 		if err := small(e, "/small/"); err != nil {
 			return nil, err
 		}
 		if err := large(e, "/large/"); err != nil {
 			return nil, err
 		}
-		return e.Create("blobpacked", mk{"smallBlobs": "/small/", "largeBlobs": "/large/", "metaIndex": mk{"type": "memory"}})
+		return e.Create("blobpacked", mk{"smallBlobs": "/small/", "largeBlobs": "/large/", "metaIndex": e.KVConf("blobpacked-meta"), "keepGoing": true})
 	}}
 }
 
 func encrypt(name string, blobs, meta leafFn, memOnly bool) Spec {
-	return Spec{Name: name, Removes: false, MemOnly: memOnly, Build: func(e *Env) (blobserver.Storage, error) {
+	return Spec{Name: name, Removes: false, MemOnly: memOnly, Recover: func(e *Env) (blobserver.Storage, error) {
+		// the local meta index is lost; the mapping must come back from the wrapped stores
+		return e.Create("encrypt", mk{"I_AGREE": EncryptAgree, "keyFile": KeyFile(), "blobs": "/encblobs/", "meta": "/encmeta/", "metaIndex": mk{"type": "memory"}})
+	}, Build: func(e *Env) (blobserver.Storage, error) {
 		if err := blobs(e, "/encblobs/"); err != nil {
 			return nil, err
 		}
 		if err := meta(e, "/encmeta/"); err != nil {
 			return nil, err
 		}
-		return e.Create("encrypt", mk{"I_AGREE": EncryptAgree, "keyFile": KeyFile(), "blobs": "/encblobs/", "meta": "/encmeta/", "metaIndex": mk{"type": "memory"}})
+		return e.Create("encrypt", mk{"I_AGREE": EncryptAgree, "keyFile": KeyFile(), "blobs": "/encblobs/", "meta": "/encmeta/", "metaIndex": e.KVConf("encrypt-index")})
 	}}
 }
 
@@ -315,7 +352,7 @@ func overlaySpec(name string, lower, upper leafFn, withDeleted bool, prepopMask 
 		}
 		args := mk{"lower": "/lower/", "upper": "/upper/"}
 		if withDeleted {
-			args["deleted"] = mk{"type": "memory"}
+			args["deleted"] = e.KVConf("overlay-deleted")
 		}
 		return e.Create("overlay", args)
 	}}
@@ -344,11 +381,11 @@ func namespaceSpec(name string, master leafFn, memOnly bool) Spec {
 			if err := master(e, "/master/"); err != nil {
 				return nil, err
 			}
-			ns1, err := e.Create("namespace", mk{"storage": "/master/", "inventory": mk{"type": "memory"}})
+			ns1, err := e.Create("namespace", mk{"storage": "/master/", "inventory": e.KVConf("ns1-inventory")})
 			if err != nil {
 				return nil, err
 			}
-			ns2, err = e.Create("namespace", mk{"storage": "/master/", "inventory": mk{"type": "memory"}})
+			ns2, err = e.Create("namespace", mk{"storage": "/master/", "inventory": e.KVConf("ns2-inventory")})
 			if err != nil {
 				return nil, err
 			}
@@ -492,7 +529,7 @@ func Specs(thorough bool) []Spec {
 		proxycacheSpec("proxycache(origin=blobpacked[mem,mem])", func(e *Env, p string) error {
 			_ = leafMem(e, "/small/")
 			_ = leafMem(e, "/large/")
-			_, err := e.At(p, "blobpacked", mk{"smallBlobs": "/small/", "largeBlobs": "/large/", "metaIndex": mk{"type": "memory"}})
+			_, err := e.At(p, "blobpacked", mk{"smallBlobs": "/small/", "largeBlobs": "/large/", "metaIndex": e.KVConf("blobpacked-meta"), "keepGoing": true})
 			return err
 		}, 2, 1<<30, false),
 	)
